@@ -18,6 +18,7 @@ From TV Require Import Dispatch.Sched_Proofs_Cache.
 From TV Require Import Dispatch.Sched_Proofs_Emit.
 From TV Require Import Dispatch.Sched_Proofs_Main.
 From TV Require Import Dispatch.Sched_Examples.
+From TV Require Import Dispatch.Sched_World.
 Import ListNotations.
 
 (** ** Once every reload has returned, every emission that starts afterwards (and does not overlap a later reload) —
@@ -126,3 +127,9 @@ Theorem C12_epoch_counts :
   (st_epoch s' = st_epoch s /\ (pc_reloading (pcof s' t) = true -> pc_reloading (pcof s t) = true)).
 Proof. exact epoch_counts. Qed.
 Print Assumptions C12_epoch_counts.
+
+(** the worlds the correspondence instantiates satisfy the side condition whenever the kernel-evaluated check succeeds *)
+Theorem C12_worlds_wf :
+  forall filters levels, wf_tableb filters levels = true -> WFworld (mk_world filters levels).
+Proof. exact mk_world_wf. Qed.
+Print Assumptions C12_worlds_wf.
